@@ -149,7 +149,15 @@ func (w *Worker) Exec(spec RunSpec) RunResult {
 		w.Out.DetChecks++
 		again := Execute(w.t, spec)
 		if again.Hash != res.Hash || again.Steps != res.Steps {
-			w.Out.DetFailures = append(w.Out.DetFailures, fmt.Sprintf("%s/%s #%d params=%v: hash %x/%x steps %d/%d", spec.Property, spec.Scenario, spec.Index, spec.Params, res.Hash, again.Hash, res.Steps, again.Steps))
+			// Either the machinery is not deterministic (fatal), or the code under test keeps
+			// process-global state that differs between its first and later executions (a lazily filled
+			// cache, a sync.Once): then the second and third executions agree with each other.
+			third := Execute(w.t, spec)
+			if third.Hash == again.Hash && third.Steps == again.Steps {
+				w.Out.Counters["warmup_state_in_code_under_test_detected"]++
+			} else {
+				w.Out.DetFailures = append(w.Out.DetFailures, fmt.Sprintf("%s/%s #%d params=%v: hash %x/%x/%x steps %d/%d/%d", spec.Property, spec.Scenario, spec.Index, spec.Params, res.Hash, again.Hash, third.Hash, res.Steps, again.Steps, third.Steps))
+			}
 		}
 	}
 	if len(res.Violations) > 0 {
@@ -252,6 +260,14 @@ func (w *Worker) handleViolations(spec RunSpec, res RunResult) {
 	rs.Tape = res.Tape
 	rs.Trace = true
 	rep := Execute(w.t, rs)
+	if w.reports(rep.Violations, key) && rep.Hash != res.Hash {
+		// same violation, different event log: accept if the replay itself is stable (warm-up state in
+		// the code under test, see above); the replay file records the hash of the final replayed run
+		if rep2 := Execute(w.t, rs); rep2.Hash == rep.Hash && w.reports(rep2.Violations, key) {
+			w.Out.Counters["warmup_state_in_code_under_test_detected"]++
+			res.Hash = rep.Hash
+		}
+	}
 	if !w.reports(rep.Violations, key) || rep.Hash != res.Hash {
 		w.Out.DetFailures = append(w.Out.DetFailures, fmt.Sprintf("violation %s of %s/%s #%d params=%v did not reproduce on replay (hash %x vs %x, violations %v)", key, spec.Property, spec.Scenario, spec.Index, spec.Params, res.Hash, rep.Hash, rep.Violations))
 		return
